@@ -23,7 +23,11 @@ From GoBT Require Import lib.Bytes model.ScriptNum model.Interp model.Debug mode
 Import ListNotations.
 
 (** the instrumented run (the one that fires callbacks) returns the verdict and the AfterStep snapshots of
-    the plain run, whatever the signature operations *)
+    the plain run, whatever the signature operations.  (Holds by construction of model/Debug.v: [engine_execute_dbg]
+    is a second transcription of [engine_execute] that also collects events, and there is no debugger object in the
+    model; the theorem checks the two transcriptions against each other.  That attaching a Go debugger -- State() at
+    every hook, copies handed to callbacks -- changes nothing is carried by the correspondence: every program runs
+    without, with a recording and with a scribbling debugger.) *)
 Theorem C19_debugger_irrelevant : forall so i, fst (engine_execute_dbg so i) = engine_execute so i.
 Proof. exact debugger_irrelevant. Qed.
 Print Assumptions C19_debugger_irrelevant.
@@ -75,7 +79,8 @@ Proof. exact as_count_is_snapshots. Qed.
 Print Assumptions C19_as_count_is_snapshots.
 
 (** within a script the snapshots are those of the states produced by consecutive instructions: the state
-    the k-th AfterStep snapshot is taken of is the state [execute_opcode] of step k+1 starts from *)
+    the k-th AfterStep snapshot is taken of is the state [execute_opcode] of step k+1 starts from.  (Per script only:
+    the relation across a script change -- alt stack dropped, P2SH restore -- is not stated here.) *)
 Theorem C19_snapshots_chain : forall so c ops idx s acc,
   exists l, steps so c ops idx s l /\
             snd (fst (run_ops_dbg so c ops idx s acc)) = rev (map snap l) ++ acc.
@@ -122,7 +127,9 @@ Proof. vm_compute. repeat split. Qed.
     against the automaton of model/DebugStack.v (pairs BeforeStackPush/AfterStackPush and
     BeforeStackPop/AfterStackPop; only while an opcode runs, between the opcode and the script change, in the
     final check, and after a script change only in a pre-Genesis pay-to-script-hash run).  Acceptance there
-    implies that the lifecycle part is a sentence of the documented grammar ... *)
+    implies that the lifecycle part is a sentence of the documented grammar ...  (These three statements are about the
+    ACCEPTOR only: the interpreter model produces no stack events, so that the full trace of a run is accepted is
+    decided on the observed Go traces, corr/C19.v.) *)
 Theorem C19_full_trace_refines_lifecycle : forall p2sh tr,
   full_lifecycle_ok p2sh tr = true -> lifecycle (project tr).
 Proof. intros p2sh tr H. apply lifecycle_ok_iff. exact (full_ok_project p2sh tr H). Qed.
@@ -145,6 +152,38 @@ Theorem C19_no_failure_after_end_of_script_cleanup : forall p2sh tr1 tr2,
   full_lifecycle_ok p2sh (tr1 ++ FPop :: FL AE :: tr2) = false.
 Proof. exact no_failure_after_end_of_script_cleanup. Qed.
 Print Assumptions C19_no_failure_after_end_of_script_cleanup.
+
+(** * Audit B additions (proofs/AuditB_C19.v): snapshot isolation in the sharing model (model/Heap.v).
+    State() copies: [copy_items] allocates a new array for every item.  A debugger that overwrites what it was handed
+    can change only arrays above the heap that existed ([scribbled]); every slice inside that heap -- every live stack
+    item, the caller's scripts -- reads the same bytes afterwards.  (About the heap model; that thread.State() does copy
+    every item is the run-time fact decided by the scribbling debugger of the harness.) *)
+From GoBT Require Import model.Heap proofs.HeapRefine proofs.AuditB_C19.
+
+Theorem C19_scribbling_is_isolated : forall from h h' x,
+  scribbled from h h' -> in_bounds (firstn from h) x = true -> rd h' x = rd h x.
+Proof. exact scribbling_is_isolated. Qed.
+Print Assumptions C19_scribbling_is_isolated.
+
+Theorem C19_snapshot_is_a_copy : forall l h h2 ys, copy_items h l = (h2, ys) -> all_in h l ->
+  extends h h2 /\ map (rd h2) ys = map (rd h) l /\ Forall (fun y => (length h <= sl_arr y)%nat) ys.
+Proof. exact copy_items_spec. Qed.
+Print Assumptions C19_snapshot_is_a_copy.
+
+Theorem C19_snapshot_scribbling_leaves_live_items : forall h live h2 ys h',
+  all_in h live -> copy_items h live = (h2, ys) -> scribbled (length h) h2 h' ->
+  map (rd h') live = map (rd h) live.
+Proof. exact snapshot_scribbling_leaves_live_items. Qed.
+Print Assumptions C19_snapshot_scribbling_leaves_live_items.
+
+(** a snapshot of two views of one array, then the copies overwritten: the live views are unchanged; had the "snapshot"
+    been the live slices themselves, the same overwrite would have changed them *)
+Example C19_isolation_example :
+  let h := [[x01; x02; x03]] in let live := [mkSl 0 0 2; mkSl 0 1 2] in
+  copy_items h live = ([[x01; x02; x03]; [x01; x02]; [x02; x03]], [mkSl 1 0 2; mkSl 2 0 2]) /\
+  map (rd [[x01; x02; x03]; [xff; xff]; [xff; xff]]) live = [[x01; x02]; [x02; x03]] /\
+  map (rd [[xff; xff; xff]]) live <> [[x01; x02]; [x02; x03]].
+Proof. vm_compute. repeat split; try reflexivity. discriminate. Qed.
 
 Example C19_full_traces :
   (* OP_1 | OP_1 OP_EQUAL: pushes inside opcodes, pops in OP_EQUAL and in the final check *)
